@@ -92,6 +92,7 @@ func (r *mRec) covered() bool {
 }
 
 type storeSim struct {
+	staleItems map[string]storage.BundleItem
 	c     *simk.Case
 	ex    storeExtra
 	res   *simk.Result
@@ -383,6 +384,11 @@ func (s *storeSim) exec(op simk.Op) {
 			return
 		}
 		s.opUpdate(sp, op)
+	case "update_stale":
+		if sp == nil {
+			return
+		}
+		s.opUpdateStale(sp, op)
 	case "delete":
 		if sp == nil {
 			return
@@ -550,6 +556,10 @@ func (s *storeSim) opUpdate(sp *storeBSpec, op simk.Op) {
 		s.res.Violate("C08", "update", "update-errors", "Update(%s): %v", sp.Tag, errs[0])
 		return
 	}
+	if s.staleItems == nil {
+		s.staleItems = map[string]storage.BundleItem{}
+	}
+	s.staleItems[sp.Tag] = bi // what a caller may still hold when the record is gone later
 	switch op.S {
 	case "pending":
 		rec.pending = op.N != 0
@@ -558,6 +568,19 @@ func (s *storeSim) opUpdate(sp *storeBSpec, op simk.Op) {
 	case "expire":
 		rec.expires = bi.Expires
 	}
+}
+
+// opUpdateStale: a caller that fetched the item earlier writes its metadata after the record was
+// deleted or swept. The record must stay gone (whatever Update returns).
+func (s *storeSim) opUpdateStale(sp *storeBSpec, op simk.Op) {
+	bi, ok := s.staleItems[sp.Tag]
+	if !ok || s.model[sp.Tag] != nil {
+		return
+	}
+	bi.Pending = true
+	err := s.run("update_stale", func() error { return s.st.Update(bi) })[0]
+	s.res.Fault("update_of_deleted_record")
+	s.lg.Add("update through a stale item of %s (record gone) -> error=%v", sp.Tag, err != nil)
 }
 
 func (s *storeSim) opDelete(sp *storeBSpec, crashAt int64) {
@@ -931,8 +954,15 @@ func genStoreCase(seed uint64, tier, focus, variant string) *simk.Case {
 			c.Ops = append(c.Ops, simk.Op{K: "update", B: b, S: r.PickS("pending", "pending", "prop", "expire"), N: int64(r.Pick(0, 1, 1, 5000, 700000))})
 		case x < 72:
 			c.Ops = append(c.Ops, simk.Op{K: "delete", B: b, M: crash, P: inPlace})
+			if rs := simk.NewRand(seed, fmt.Sprintf("stale%d", i)); rs.Bool(0.35) {
+				// a caller that fetched the item before writes its metadata now (no-op unless an update preceded)
+				c.Ops = append(c.Ops, simk.Op{K: "update_stale", B: b})
+			}
 		case x < 80:
 			c.Ops = append(c.Ops, simk.Op{K: "sweep"})
+			if rs := simk.NewRand(seed, fmt.Sprintf("stale%d", i)); rs.Bool(0.35) {
+				c.Ops = append(c.Ops, simk.Op{K: "update_stale", B: b})
+			}
 		case x < 92:
 			c.Ops = append(c.Ops, simk.Op{K: "advance", N: int64(r.Pick(1, 500, 3000, 20000, 40000))})
 		default:
